@@ -64,6 +64,10 @@ func buildPureContainer(cfg pureCfg) *restful.Container {
 				req.SetAttribute("rid", req.Request.Header.Get("X-Rid"))
 			}
 			resp.AddHeader(fmt.Sprintf("X-F%d", i), "1")
+			if i == 0 {
+				// what the chain says about the operation it leads to (nothing for a request that failed routing)
+				resp.AddHeader("X-Chain", fmt.Sprintf("%s/%d", chain.Operation, len(chain.ParameterDocs)))
+			}
 			chain.ProcessFilter(req, resp)
 		})
 	}
@@ -99,11 +103,11 @@ func buildPureContainer(cfg pureCfg) *restful.Container {
 		resp.AddHeader("X-Route-A-Id", req.SelectedRoutePath())
 		chain.ProcessFilter(req, resp)
 	}).To(h))
-	a.Route(a.PUT("/{id}").To(h))
-	a.Route(a.DELETE("/{id}").To(h))
+	a.Route(a.PUT("/{id}").Operation("putA").Param(a.PathParameter("id", "the id")).To(h))
+	a.Route(a.DELETE("/{id}").Operation("deleteA").To(h))
 	a.Route(a.PATCH("/lit").To(h))
 	a.Route(a.GET("/{id}/sub/{x:*}").To(h))
-	a.Route(a.GET("/lit").To(h))
+	a.Route(a.GET("/lit").Operation("getLit").Param(a.QueryParameter("q", "a query")).Param(a.HeaderParameter("X-H", "a header")).To(h))
 	// reads a (possibly gzip-encoded) entity and answers with what it read
 	a.Route(a.POST("/echo").Consumes(restful.MIME_JSON).To(func(req *restful.Request, resp *restful.Response) {
 		var e struct {
